@@ -25,7 +25,13 @@ pub fn record_tograph(cj: &Value, tr: &mut Tr, modes: &[&str]) {
     let c = circ_from_json(cj);
     tr.group();
     tr.emit(json!({"k": "circ", "c": cj}));
+    // to_graph_with_options(true, true): the post-selection flag only matters for CCZ / TOFF, so the fourth corner of the
+    // option grid is recorded for every circuit that contains one of them and for every fourth other circuit
+    let has3 = c.gates.iter().any(|g| matches!(g.t, quizx::gate::GType::CCZ | quizx::gate::GType::TOFF));
     for mode in modes {
+        if *mode == "simp_postsel" && !has3 && tr.groups % 4 != 0 {
+            continue;
+        }
         let ev = tograph::<quizx::vec_graph::Graph>(&c, mode, "vec");
         let eh = tograph::<quizx::hash_graph::Graph>(&c, mode, "hash");
         let same = match (ev.get("post"), eh.get("post")) {
@@ -41,6 +47,131 @@ pub fn record_tograph(cj: &Value, tr: &mut Tr, modes: &[&str]) {
             tr.emit(eh);
         }
     }
+}
+
+/// C02 (audit: `Gate::add_to_graph` is pub): the translation driven gate by gate by the CALLER, with a caller-owned
+/// qubit -> output-position map that is not the identity (wire w carries qubit p^-1(w)) and a caller-chosen first fresh
+/// variable.  The header is the circuit as the wires see it (qubit q of the gate list renamed to p[q]), so the diagram must
+/// denote exactly what `to_graph` of the header denotes (Trace_Circ: Translated; L1: ToGraphFrom name for name).
+fn direct_one<G: GraphLike>(cj: &Value, p: &[usize], fresh0: u32, postsel: bool, be: &str) -> Value {
+    use rustc_hash::FxHashMap;
+    let n = cj["n"].as_u64().unwrap() as usize;
+    // inverse renaming: the caller's gate list talks about qubit q = p^-1(w)
+    let mut pinv = vec![0usize; n];
+    for (q, &w) in p.iter().enumerate() {
+        pinv[w] = q;
+    }
+    let gates: Vec<quizx::gate::Gate> = rename_qubits(cj, &pinv)["gates"].as_array().unwrap().iter().map(gate_from_json).collect();
+    let mode = if postsel { "direct_postsel" } else { "direct" };
+    let r = guarded(|| {
+        let mut g = G::new();
+        let (mut ins, mut outs) = (vec![], vec![]);
+        for w in 0..n {
+            let i = g.add_vertex_with_data(quizx::graph::VData { ty: quizx::graph::VType::B, qubit: w as f64, row: 1.0, ..Default::default() });
+            let o = g.add_vertex_with_data(quizx::graph::VData { ty: quizx::graph::VType::B, qubit: w as f64, row: 2.0, ..Default::default() });
+            g.add_edge(i, o);
+            ins.push(i);
+            outs.push(o);
+        }
+        g.set_inputs(ins);
+        g.set_outputs(outs);
+        let mut qs: FxHashMap<usize, usize> = FxHashMap::default();
+        for (q, &w) in p.iter().enumerate() {
+            qs.insert(q, w);
+        }
+        let mut fresh = fresh0;
+        let mut touched = 0usize;
+        for gt in &gates {
+            touched += gt.add_to_graph(&mut fresh, &mut g, &mut qs, postsel).len();
+        }
+        // outputs back in the order of the wires' names
+        let mut live: Vec<(usize, usize)> = qs.iter().map(|(&q, &i)| (p[q], i)).collect();
+        live.sort();
+        let outs: Vec<usize> = live.iter().map(|&(_, i)| g.outputs()[i]).collect();
+        g.set_outputs(outs);
+        (abs(&g), fresh, touched)
+    });
+    match r {
+        Err(msg) => json!({"k": "tograph", "mode": mode, "be": be, "res": "panic", "msg": msg}),
+        Ok((post, fresh_end, touched)) => json!({"k": "tograph", "mode": mode, "be": be, "res": "ok", "post": post, "fresh_end": fresh_end, "touched": touched}),
+    }
+}
+
+pub fn record_tograph_direct(cj: &Value, tr: &mut Tr, r: &mut StdRng) {
+    let n = cj["n"].as_u64().unwrap() as usize;
+    let mut p: Vec<usize> = (0..n).collect();
+    for i in (1..n).rev() {
+        p.swap(i, r.random_range(0..=i));
+    }
+    let maxv = cj["gates"].as_array().unwrap().iter().flat_map(|g| g["vars"].as_array().unwrap().iter().map(|x| x.as_u64().unwrap() as u32)).max();
+    let first = maxv.map_or(0, |m| m + 1);
+    // the documented seed (largest explicit + 1), a larger one, and one that collides with an explicit variable
+    let fresh0 = match r.random_range(0..3) {
+        0 => first,
+        1 => first + 2,
+        _ => 0,
+    };
+    tr.group();
+    tr.emit(json!({"k": "circ", "c": cj, "fresh0": fresh0, "perm": p}));
+    let postsel = r.random_bool(0.5);
+    let ev = direct_one::<quizx::vec_graph::Graph>(cj, &p, fresh0, postsel, "vec");
+    let eh = direct_one::<quizx::hash_graph::Graph>(cj, &p, fresh0, postsel, "hash");
+    let same = match (ev.get("post"), eh.get("post")) {
+        (Some(a), Some(b)) => canon(a) == canon(b) && ev["fresh_end"] == eh["fresh_end"],
+        _ => ev["res"] == eh["res"],
+    };
+    if same {
+        let mut e = eh;
+        e["be"] = json!("both");
+        tr.emit(e);
+    } else {
+        tr.emit(ev);
+        tr.emit(eh);
+    }
+}
+
+/// C10 / C02 (audit item 1, `write_measure` -> `Parity::single(cbit)`): the circuit is handed over as QASM TEXT whose
+/// measurements are `measure q[i] -> c[j];` statements; the header is the circuit the text denotes (Measure gate on qubit i
+/// with outcome variable j), the translation is that of the circuit `from_qasm` returned.  A text the front end rejects is
+/// recorded (`note`), not judged (C14 owns parsing).
+pub fn record_tograph_qasm(cj: &Value, tr: &mut Tr, modes: &[&str]) -> bool {
+    let n = cj["n"].as_u64().unwrap() as usize;
+    let gates = cj["gates"].as_array().unwrap();
+    // two classical registers c[2], d[2]: bit j of the text is c[j] for j < 2 and d[j - 2] otherwise
+    let mut text = format!("OPENQASM 2.0;\ninclude \"qelib1.inc\";\nqreg q[{n}];\ncreg c[2];\ncreg d[2];\n");
+    for g in gates {
+        let gt = gate_from_json(g);
+        if g["t"] == "Measure" {
+            let vs = g["vars"].as_array().unwrap();
+            if vs.len() != 1 || vs[0].as_u64().unwrap() > 3 {
+                return false;
+            }
+            let j = vs[0].as_u64().unwrap();
+            let cb = if j < 2 { format!("c[{j}]") } else { format!("d[{}]", j - 2) };
+            text += &format!("measure q[{}] -> {cb};\n", g["qs"][0]);
+        } else if g["t"] == "MeasureReset" || g["t"] == "ParityPhase" {
+            return false; // not declared by the front end
+        } else {
+            text += &format!("{};\n", gt.to_qasm());
+        }
+    }
+    tr.group();
+    tr.emit(json!({"k": "circ", "c": cj, "via": "qasm"}));
+    match guarded(|| Circuit::from_qasm(&text)) {
+        Ok(Ok(c)) => {
+            for mode in modes {
+                if *mode == "simp_postsel" {
+                    continue;
+                }
+                let mut e = tograph::<quizx::vec_graph::Graph>(&c, mode, "vec");
+                e["via"] = json!("qasm");
+                tr.emit(e);
+            }
+        }
+        Ok(Err(m)) => tr.emit(json!({"k": "note", "what": "qasm_rejected", "msg": m.chars().filter(|ch| ch.is_ascii() && *ch != '"' && *ch != '\\' && *ch != '\n').take(120).collect::<String>()})),
+        Err(m) => tr.emit(json!({"k": "note", "what": "qasm_panic", "msg": m})),
+    }
+    true
 }
 
 /// C15: adjoint, basic-gate expansion, concatenation, reversal, statistics
@@ -77,6 +208,161 @@ pub fn record_ops(cj: &Value, cj2: &Value, tr: &mut Tr) {
         let s = c.stats();
         json!({"qubits": s.qubits, "total": s.total, "oneq": s.oneq, "twoq": s.twoq, "moreq": s.moreq, "cliff": s.cliff, "non_cliff": s.non_cliff})
     }));
+    record_ops_more(&c, cj, tr);
+}
+
+/// the labelled numbers of `Display for CircuitStats`, read by label (text processing only; TLC compares them with the fields)
+fn read_stats_display(text: &str) -> Value {
+    let num_after = |label: &str| -> i64 {
+        text.find(label).and_then(|i| text[i + label.len()..].trim_start().split(|ch: char| !ch.is_ascii_digit()).next().and_then(|x| x.parse().ok())).unwrap_or(-1)
+    };
+    let before = |label: &str| -> i64 {
+        text.find(label).and_then(|i| text[..i].trim_end().rsplit(|ch: char| !ch.is_ascii_digit()).next().and_then(|x| x.parse().ok())).unwrap_or(-1)
+    };
+    json!({"qubits": before(" qubits"), "total": before(" gates"), "oneq": num_after("1-qubit:"), "twoq": num_after("2-qubit:"), "moreq": num_after("n-qubit:"),
+           "cliff": num_after("\n  clifford:"), "non_cliff": num_after("non-clifford:")})
+}
+
+const ALL_KINDS: [&str; 21] = ["XPhase", "NOT", "ZPhase", "Z", "S", "T", "Sdg", "Tdg", "CNOT", "CZ", "ParityPhase", "XCX", "SWAP", "HAD", "TOFF", "CCZ",
+                               "InitAncilla", "PostSelect", "Measure", "MeasureReset", "UnknownGate"];
+
+/// C15, the rest of the public surface of circuit.rs / gate.rs (audit items 11 and 25)
+fn record_ops_more(c: &Circuit, cj: &Value, tr: &mut Tr) {
+    use bitgauss::{BitMatrix, RowOps};
+    use quizx::gate::{GType, Gate};
+    let n = c.num_qubits();
+    let put = |tr: &mut Tr, op: &str, r: Result<Value, String>| match r {
+        Ok(v) => tr.emit(json!({"k": "op", "op": op, "res": "ok", "out": v})),
+        Err(m) => tr.emit(json!({"k": "op", "op": op, "res": "panic", "msg": m})),
+    };
+    let salt = tr.groups;
+    // ---- `+` / `+=` with DIFFERENT qubit counts: there is no composite map; each overload is recorded on its own
+    {
+        let n2 = if salt % 2 == 0 { n + 1 } else { n.saturating_sub(1) };
+        let mut c2 = Circuit::new(n2);
+        // the right operand addresses its own highest qubit (when it has one)
+        if n2 > 0 {
+            c2.push(Gate::new(GType::HAD, vec![n2 - 1]));
+        }
+        if n >= 1 && salt % 3 == 0 {
+            c2.gates.extend(c.gates.iter().filter(|g| g.qs.iter().all(|&q| q < n2)).cloned());
+        }
+        let one = |r: Result<Circuit, String>| match r {
+            Ok(x) => ("ok", circ_json(&x)),
+            Err(_) => ("panic", json!({"n": 0, "gates": []})),
+        };
+        let rs = [
+            ("sum", one(guarded(|| c.clone() + c2.clone()))),
+            ("sum_ref", one(guarded(|| c + &c2))),
+            ("sum_ref_own", one(guarded(|| c + c2.clone()))),
+            ("sum_own_ref", one(guarded(|| c.clone() + &c2))),
+            ("sum_assign", one(guarded(|| {
+                let mut acc = c.clone();
+                acc += &c2;
+                acc
+            }))),
+        ];
+        let mut res = serde_json::Map::new();
+        let mut outs = serde_json::Map::new();
+        for (name, (r, o)) in rs {
+            res.insert(name.to_string(), json!(r));
+            outs.insert(name.to_string(), o);
+        }
+        put(tr, "concat_mismatch", Ok(json!({"rhs": circ_json(&c2), "results": res, "outs": outs})));
+    }
+    // ---- push_front (prepending one gate)
+    {
+        let g = if n >= 2 && salt % 2 == 0 { Gate::new(GType::CNOT, vec![salt % n, (salt + 1) % n]) } else { Gate::new_with_phase(GType::ZPhase, vec![salt % n.max(1)], num::Rational64::new(1, 4)) };
+        put(tr, "push_front", guarded(|| {
+            let mut x = c.clone();
+            x.push_front(g.clone());
+            let mut y = c.clone();
+            y.push_back(g.clone());
+            json!({"g": gate_json(&g), "out": circ_json(&x), "back": circ_json(&y)})
+        }));
+    }
+    // ---- construction by NAME: add_gate / add_gate_with_phase / add_gate_with_phase_and_vars
+    put(tr, "by_name", guarded(|| {
+        let mut x = Circuit::new(n);
+        let mut used = [0usize; 3];
+        for (i, g) in c.gates.iter().enumerate() {
+            let name = g.t.qasm_name();
+            let zero = { use num::Zero; g.phase.is_zero() };
+            match (i + salt) % 3 {
+                0 => {
+                    used[0] += 1;
+                    x.add_gate_with_phase_and_vars(name, g.qs.clone(), g.phase, g.vars.clone())
+                }
+                1 if zero && g.vars.is_empty() => {
+                    used[1] += 1;
+                    x.add_gate(name, g.qs.clone())
+                }
+                _ if g.vars.is_empty() => {
+                    used[2] += 1;
+                    x.add_gate_with_phase(name, g.qs.clone(), g.phase)
+                }
+                _ => x.add_gate_with_phase_and_vars(name, g.qs.clone(), g.phase, g.vars.clone()),
+            }
+        }
+        // a name the table does not know (recorded, not judged)
+        let mut u = Circuit::new(1);
+        u.add_gate("u3", vec![0]);
+        json!({"out": circ_json(&x), "unknown_kind": format!("{:?}", u.gates[0].t), "used": used})
+    }));
+    // ---- num_gates_of_type for every kind
+    put(tr, "counts", guarded(|| {
+        let ns: Vec<usize> = ALL_KINDS.iter().map(|k| c.num_gates_of_type(gtype_from(k))).collect();
+        json!({"kinds": ALL_KINDS, "ns": ns, "num_gates": c.num_gates()})
+    }));
+    // ---- the two other views of the statistics: into_array and Display
+    put(tr, "stats_views", guarded(|| {
+        let s = c.stats();
+        let made = quizx::circuit::CircuitStats::make(c);
+        json!({"fields": {"qubits": s.qubits, "total": s.total, "oneq": s.oneq, "twoq": s.twoq, "moreq": s.moreq, "cliff": s.cliff, "non_cliff": s.non_cliff},
+               "arr": s.into_array(), "disp": read_stats_display(&format!("{s}")), "make_same": made == s})
+    }));
+    // ---- in-place adjoint of the circuit and of every single gate
+    put(tr, "adjoint_inplace", guarded(|| {
+        let mut x = c.clone();
+        x.adjoint();
+        let gw: Vec<Value> = c.gates.iter().map(|g| {
+            let mut h = g.clone();
+            h.adjoint();
+            gate_json(&h)
+        }).collect();
+        json!({"inplace": circ_json(&x), "to_adjoint": circ_json(&c.to_adjoint()), "gatewise": gw})
+    }));
+    // ---- RowOps for Circuit: a circuit of CNOT / SWAP gates as the proxy of an F2 matrix.  `mat` is what the SAME call does
+    //      to the identity BitMatrix (bitgauss defines the operation); Trace_Circ checks that the circuit's linear map on
+    //      X-basis states (where `c|b> = |m b>` of the impl's documentation holds) is multiplied by exactly that matrix.
+    if n >= 2 {
+        let mut base = Circuit::new(n);
+        base.gates.extend(c.gates.iter().filter(|g| matches!(g.t, GType::CNOT | GType::SWAP)).cloned());
+        let r0 = salt % n;
+        let r1 = (r0 + 1 + (salt / n) % (n - 1)) % n;
+        let mut ops = vec![];
+        for (name, a, b) in [("add_row", r0, r1), ("add_row", r1, r0), ("swap_rows", r0, r1)] {
+            let r = guarded(|| {
+                let mut x = base.clone();
+                let mut m = BitMatrix::identity(n);
+                if name == "add_row" {
+                    x.add_row(a, b);
+                    m.add_row(a, b);
+                } else {
+                    x.swap_rows(a, b);
+                    m.swap_rows(a, b);
+                }
+                let rows: Vec<Vec<u8>> = (0..n).map(|i| (0..n).map(|j| m[(i, j)] as u8).collect()).collect();
+                (circ_json(&x), rows)
+            });
+            match r {
+                Ok((out, mat)) => ops.push(json!({"op": name, "r0": a, "r1": b, "res": "ok", "out": out, "mat": mat})),
+                Err(_) => ops.push(json!({"op": name, "r0": a, "r1": b, "res": "panic", "out": {"n": 0, "gates": []}, "mat": []})),
+            }
+        }
+        put(tr, "rowops", Ok(json!({"base": circ_json(&base), "ops": ops})));
+    }
+    let _ = cj;
 }
 
 // ---------------------------------------------------------------------------------------
@@ -112,6 +398,12 @@ pub fn record_eq_pair(c1j: &Value, c2j: &Value, how: &str, tr: &mut Tr) {
     for phase in [true, false] {
         tr.emit(json!({"k": "eq", "fn": "graph", "phase": phase, "ret": ans(guarded(|| equal_graph_with_options(&g1, &g2, phase)))}));
     }
+    // the default wrapper (up to global phase) and the arity test, called directly on the diagrams
+    tr.emit(json!({"k": "eq", "fn": "graph_default", "phase": true, "ret": ans(guarded(|| equal_graph(&g1, &g2)))}));
+    tr.emit(match guarded(|| equal_graph_dim(&g1, &g2)) {
+        Ok(b) => json!({"k": "eqdim", "fn": "graph_dim", "res": "ok", "ret": b}),
+        Err(_) => json!({"k": "eqdim", "fn": "graph_dim", "res": "panic"}),
+    });
     clifford_simp(&mut g2);
     tr.emit(json!({"k": "eq", "fn": "graph_simplified", "phase": false, "ret": ans(guarded(|| equal_graph_with_options(&g1, &g2, false)))}));
     let bev = |k: &str, f: &str, r: Result<bool, String>| match r {
@@ -121,6 +413,75 @@ pub fn record_eq_pair(c1j: &Value, c2j: &Value, how: &str, tr: &mut Tr) {
     tr.emit(bev("eqt", "circuit_tensor", guarded(|| equal_circuit_tensor(&c1, &c2))));
     tr.emit(bev("eqt", "graph_tensor", guarded(|| equal_graph_tensor(&g1, &c2.to_graph()))));
     tr.emit(bev("eqdim", "circuit_dim", guarded(|| equal_circuit_dim(&c1, &c2))));
+}
+
+/// a unitary diagram of the circuit that is NOT the plain `to_graph` output
+pub const EQ_ROUTES: [&str; 8] = ["full", "clifford", "build_simp", "flow", "postsel", "x_to_z", "rebuilt", "phase_i"];
+fn diagram_by(c: &Circuit, route: &str) -> quizx::vec_graph::Graph {
+    use quizx::vec_graph::Graph;
+    match route {
+        "full" => {
+            let mut g: Graph = c.to_graph();
+            full_simp(&mut g);
+            g
+        }
+        "clifford" => {
+            let mut g: Graph = c.to_graph();
+            clifford_simp(&mut g);
+            g
+        }
+        "flow" => {
+            let mut g: Graph = c.to_graph();
+            flow_simp(&mut g);
+            g
+        }
+        "build_simp" => c.to_graph_with_options(true, false),
+        "postsel" => c.to_graph_with_options(false, true),
+        "x_to_z" => {
+            let mut g: Graph = c.to_graph();
+            g.x_to_z();
+            g
+        }
+        // the same diagram under other vertex names: through the abstract projection, two adjoints, compaction
+        "rebuilt" => {
+            let g0: Graph = c.to_graph();
+            let mut g: Graph = crate::absg::build(&abs(&g0.to_adjoint().to_adjoint()));
+            g.pack(true);
+            g
+        }
+        // the map times i: still unitary, equal only up to a global phase
+        "phase_i" => {
+            let mut g: Graph = c.to_graph();
+            *g.scalar_mut() *= quizx::scalar::Scalar4::new([0, 0, 1, 0], 0);
+            g
+        }
+        _ => panic!("route {route}"),
+    }
+}
+
+/// C12 (audit item 17): the graph entry points on unitary diagrams that were not produced by `to_graph`.  The header
+/// carries the two diagrams; the ground truth is their denotation `Den` computed by TLC (mc/Trace_Eq.tla, `pairg`).
+pub fn record_eq_graphs(c1j: &Value, c2j: &Value, how: &str, r1: &str, r2: &str, tr: &mut Tr) {
+    let c1 = circ_from_json(c1j);
+    let c2 = circ_from_json(c2j);
+    let (g1, g2) = match guarded(|| (diagram_by(&c1, r1), diagram_by(&c2, r2))) {
+        Ok(x) => x,
+        Err(_) => return, // building the inputs is not the call under test (C01 / C02 judge it)
+    };
+    tr.group();
+    tr.emit(json!({"k": "pairg", "g1": abs(&g1), "g2": abs(&g2), "how": how, "r1": r1, "r2": r2}));
+    for phase in [true, false] {
+        tr.emit(json!({"k": "eq", "fn": "graph", "phase": phase, "ret": ans(guarded(|| equal_graph_with_options(&g1, &g2, phase)))}));
+    }
+    tr.emit(json!({"k": "eq", "fn": "graph_default", "phase": true, "ret": ans(guarded(|| equal_graph(&g1, &g2)))}));
+    tr.emit(match guarded(|| equal_graph_tensor(&g1, &g2)) {
+        Ok(b) => json!({"k": "eqt", "fn": "graph_tensor", "res": "ok", "ret": b}),
+        Err(_) => json!({"k": "eqt", "fn": "graph_tensor", "res": "panic"}),
+    });
+    tr.emit(match guarded(|| equal_graph_dim(&g1, &g2)) {
+        Ok(b) => json!({"k": "eqdim", "fn": "graph_dim", "res": "ok", "ret": b}),
+        Err(_) => json!({"k": "eqdim", "fn": "graph_dim", "res": "panic"}),
+    });
 }
 
 /// the constructed families of the property: from a circuit c build (c2, how)
@@ -212,6 +573,62 @@ fn simp_by<G: GraphLike>(name: &str, g: &mut G) {
     }
 }
 
+/// a caller-written Gauss strategy for `with_gaussf` (delegates to the simple eliminator)
+fn custom_gauss<G: GraphLike>(e: &mut Extractor<G>, c: &mut Circuit) {
+    Extractor::simple_gauss(e, c)
+}
+
+/// every way the public API offers to extract: builder options in both orders, explicit `with_gaussf`, the `ToCircuit` entry points
+fn extract_by<G: GraphLike>(g: &mut G, mode: &str) -> Result<Circuit, quizx::extract::ExtractError<G>> {
+    match mode {
+        "to_circuit" => g.to_circuit(),
+        "to_circuit_mut" => g.to_circuit_mut(),
+        "extractor_default" => g.extractor().extract(),
+        "extractor_simple" => g.extractor().gflow_simple_gauss().extract(),
+        _ => {
+            let mut ex = Extractor::new(g);
+            match mode {
+                "gflow" => {
+                    ex.gflow();
+                }
+                "simple" => {
+                    ex.gflow_simple_gauss();
+                }
+                "perm" => {
+                    ex.gflow().up_to_perm();
+                }
+                "flow" => {
+                    ex.flow();
+                }
+                "simple_perm" => {
+                    ex.gflow_simple_gauss().up_to_perm();
+                }
+                "perm_simple" => {
+                    ex.up_to_perm().gflow_simple_gauss();
+                }
+                "flow_perm" => {
+                    ex.flow().up_to_perm();
+                }
+                "wg_simple" => {
+                    ex.with_gaussf(Extractor::simple_gauss);
+                }
+                "wg_single" => {
+                    ex.with_gaussf(Extractor::single_sln_set);
+                }
+                "wg_none" => {
+                    ex.with_gaussf(Extractor::no_gauss);
+                }
+                "wg_custom" => {
+                    ex.with_gaussf(custom_gauss::<G>);
+                }
+                "none" => {}
+                _ => panic!("extract mode {mode}"),
+            }
+            ex.extract()
+        }
+    }
+}
+
 fn extract_one<G: GraphLike>(c: &Circuit, simp: &str, mode: &str, be: &str) -> Value {
     let r = crate::eng_simp::with_watchdog(30, {
         let (c, simp, mode) = (c.clone(), simp.to_string(), mode.to_string());
@@ -219,25 +636,10 @@ fn extract_one<G: GraphLike>(c: &Circuit, simp: &str, mode: &str, be: &str) -> V
             guarded(|| {
                 let mut g: G = c.to_graph();
                 simp_by(&simp, &mut g);
-                let mut ex = Extractor::new(&mut g);
-                match mode.as_str() {
-                    "gflow" => {
-                        ex.gflow();
-                    }
-                    "simple" => {
-                        ex.gflow_simple_gauss();
-                    }
-                    "perm" => {
-                        ex.gflow().up_to_perm();
-                    }
-                    "flow" => {
-                        ex.flow();
-                    }
-                    _ => {}
-                }
-                match ex.extract() {
+                match extract_by(&mut g, &mode) {
                     Ok(c2) => Ok(circ_json(&c2)),
-                    Err(e) => Err(e.0.chars().filter(|ch| ch.is_ascii() && *ch != '"').take(100).collect::<String>()),
+                    // Display of ExtractError is the message
+                    Err(e) => Err(format!("{e}").chars().filter(|ch| ch.is_ascii() && *ch != '"').take(100).collect::<String>()),
                 }
             })
         }
@@ -253,9 +655,11 @@ fn extract_one<G: GraphLike>(c: &Circuit, simp: &str, mode: &str, be: &str) -> V
 pub fn record_extract(cj: &Value, tr: &mut Tr, thorough: bool) {
     let c = circ_from_json(cj);
     tr.group();
+    let idx = tr.groups; // rotates the selection of the additional combinations
     tr.emit(json!({"k": "circ", "c": cj}));
     let mut combos: Vec<(&str, &str)> = vec![];
-    for s in ["flow", "clifford", "full"] {
+    const SIMPS: [&str; 3] = ["flow", "clifford", "full"];
+    for s in SIMPS {
         for m in ["gflow", "simple", "perm"] {
             combos.push((s, m));
         }
@@ -281,6 +685,32 @@ pub fn record_extract(cj: &Value, tr: &mut Tr, thorough: bool) {
         } else {
             tr.emit(ev);
             tr.emit(eh);
+        }
+    }
+    // the other option combinations and entry points of the public API (audit item 12): all of them when thorough, a
+    // rotating selection on alternating backends otherwise.  `flow` / `wg_none` after clifford / full simplification are
+    // NOT promised to succeed (no causal flow): Trace_Extract records them without judging.
+    let mut more: Vec<(&str, &str)> = vec![];
+    if thorough {
+        for s in SIMPS {
+            for m in ["simple_perm", "perm_simple", "wg_simple", "wg_single", "wg_custom", "to_circuit", "to_circuit_mut", "extractor_default", "extractor_simple"] {
+                more.push((s, m));
+            }
+        }
+        more.extend([("flow", "flow_perm"), ("flow", "wg_none"), ("clifford", "flow"), ("full", "flow"), ("clifford", "flow_perm"), ("full", "wg_none")]);
+    } else {
+        more.push((SIMPS[idx % 3], if idx % 4 == 0 { "perm_simple" } else { "simple_perm" }));
+        more.push(("flow", if idx % 3 == 0 { "wg_none" } else { "flow_perm" }));
+        more.push((SIMPS[(idx / 3) % 3], ["wg_simple", "wg_single", "wg_custom"][idx % 3]));
+        more.push((SIMPS[(idx + 1) % 3], ["to_circuit", "to_circuit_mut", "extractor_default", "extractor_simple"][idx % 4]));
+        more.push((["clifford", "full"][idx % 2], ["flow", "flow_perm", "wg_none"][(idx / 2) % 3]));
+    }
+    for (i, (s, m)) in more.into_iter().enumerate() {
+        if thorough || (idx + i) % 2 == 0 {
+            tr.emit(extract_one::<quizx::vec_graph::Graph>(&c, s, m, "vec"));
+        }
+        if thorough || (idx + i) % 2 == 1 {
+            tr.emit(extract_one::<quizx::hash_graph::Graph>(&c, s, m, "hash"));
         }
     }
 }
@@ -364,6 +794,7 @@ pub fn record_cli_opt(cj: &Value, tr: &mut Tr, bin: &str, dir: &str, idx: usize)
     let c = circ_from_json(cj);
     let path = format!("{dir}/in_{idx}.qasm");
     std::fs::write(&path, c.to_qasm()).unwrap();
+    let clean = |m: &str| m.chars().filter(|ch| ch.is_ascii() && *ch != '"' && *ch != '\\' && *ch != '\n').take(100).collect::<String>();
     for (mi, method) in ["", "--full", "--flow", "--clifford"].iter().enumerate() {
         let mut cmd = std::process::Command::new(bin);
         cmd.arg("opt").arg(&path);
@@ -372,15 +803,17 @@ pub fn record_cli_opt(cj: &Value, tr: &mut Tr, bin: &str, dir: &str, idx: usize)
         }
         let outfile = format!("{dir}/out_{idx}_{mi}.qasm");
         let use_file = (idx + mi) % 2 == 1;
+        // both spellings of the output option
+        let oflag = if (idx / 2 + mi) % 2 == 0 { "-o" } else { "--out" };
         if use_file {
-            cmd.arg("-o").arg(&outfile);
+            cmd.arg(oflag).arg(&outfile);
         }
         let o = cmd.output().expect("run quizx");
         let text = if use_file { std::fs::read_to_string(&outfile).unwrap_or_default() } else { String::from_utf8_lossy(&o.stdout).to_string() };
         let stderr = String::from_utf8_lossy(&o.stderr).to_string();
         let code = o.status.code().unwrap_or(-1);
         let parsed = Circuit::from_qasm(&text);
-        let mut e = json!({"k": "cli_opt", "method": method, "via": if use_file { "file" } else { "stdout" }, "exit": code,
+        let mut e = json!({"k": "cli_opt", "method": method, "via": if use_file { oflag } else { "stdout" }, "exit": code, "expect": "ok",
                            "panicked": stderr.contains("panicked at")});
         match parsed {
             Ok(c2) if code == 0 => {
@@ -390,11 +823,42 @@ pub fn record_cli_opt(cj: &Value, tr: &mut Tr, bin: &str, dir: &str, idx: usize)
             Ok(_) => e["res"] = json!("exit_nonzero"),
             Err(m) => {
                 e["res"] = json!(if code == 0 { "unparsable" } else { "exit_nonzero" });
-                e["msg"] = json!(m.chars().filter(|ch| ch.is_ascii() && *ch != '"' && *ch != '\n').take(100).collect::<String>());
+                e["msg"] = json!(clean(&m));
             }
         }
         tr.emit(e);
         let _ = std::fs::remove_file(&outfile);
     }
+    // ---- invocations that have no result to print: the contract is an error exit, not a panic and not a success
+    //      (one case per call, rotating): two method flags at once, a missing input file, an input that is not QASM,
+    //      an input with a gate the front end does not declare, an input with a barrier
+    let bad = format!("{dir}/bad_{idx}.qasm");
+    let outfile = format!("{dir}/badout_{idx}.qasm");
+    static CALLS: std::sync::atomic::AtomicUsize = std::sync::atomic::AtomicUsize::new(0);
+    let (case, args): (&str, Vec<String>) = match CALLS.fetch_add(1, std::sync::atomic::Ordering::Relaxed) % 6 {
+        0 => ("two_methods", vec![path.clone(), "--full".into(), "--flow".into()]),
+        1 => ("two_methods", vec![path.clone(), "--clifford".into(), "--full".into(), "--out".into(), outfile.clone()]),
+        2 => ("missing_input", vec![format!("{dir}/does_not_exist_{idx}.qasm")]),
+        3 => {
+            std::fs::write(&bad, "this is not a circuit\n").unwrap();
+            ("garbage_input", vec![bad.clone(), "--out".into(), outfile.clone()])
+        }
+        4 => {
+            std::fs::write(&bad, "OPENQASM 2.0;\ninclude \"qelib1.inc\";\nqreg q[2];\nh q[0];\nu3(0.1,0.2,0.3) q[1];\ncx q[0], q[1];\n").unwrap();
+            ("undeclared_gate", vec![bad.clone()])
+        }
+        _ => {
+            std::fs::write(&bad, "OPENQASM 2.0;\ninclude \"qelib1.inc\";\nqreg q[2];\nh q[0];\nbarrier q;\ncx q[0], q[1];\n").unwrap();
+            ("barrier", vec![bad.clone(), "--flow".into()])
+        }
+    };
+    let o = std::process::Command::new(bin).arg("opt").args(&args).output().expect("run quizx");
+    let stderr = String::from_utf8_lossy(&o.stderr).to_string();
+    let stdout = String::from_utf8_lossy(&o.stdout).to_string();
+    tr.emit(json!({"k": "cli_opt", "method": case, "via": "none", "exit": o.status.code().unwrap_or(-1), "expect": "reject", "res": "n/a",
+                   "panicked": stderr.contains("panicked at"), "wrote_file": std::path::Path::new(&outfile).exists(),
+                   "printed_qasm": stdout.contains("qreg"), "msg": clean(&stderr)}));
+    let _ = std::fs::remove_file(&bad);
+    let _ = std::fs::remove_file(&outfile);
     let _ = std::fs::remove_file(&path);
 }
